@@ -352,6 +352,11 @@ Definition tgc_count (s : tst) : nat := length (ts_tt s) - length (ts_tt (tgc s)
 (** `Manager::gc` *)
 Definition tcollect (s : tst) : tst := tgc (tcollect_inner s).
 
+(** its return value: `collected += level.len()` before - after, per level, then
+    `collected += store.terminal_manager.gc()` *)
+Definition tcollect_count (s : tst) : nat :=
+  (length (cn (ts_c s)) - length (cn (ts_c (tcollect_inner s)))) + tgc_count (tcollect_inner s).
+
 (** histories: actions of the threads interleaved with whole collections *)
 Inductive thact :=
 | THAct (a : tact)
